@@ -262,7 +262,7 @@ pub fn run(ctx: &mut Ctx) {
         let mut idx = 0u64;
         for len in 0..=12usize {
             // all fills for short lengths, patterned for the rest
-            let total = if len <= 6 { 4u64.pow(len as u32) } else { 4096 };
+            let total = if ctx.slow_tool { if len <= 3 { 4u64.pow(len as u32) } else { 24 } } else if len <= 6 { 4u64.pow(len as u32) } else { 4096 };
             for k in 0..total {
                 idx += 1;
                 if !ctx.take("peek", idx) {
@@ -374,7 +374,7 @@ pub fn run(ctx: &mut Ctx) {
 
     // ---- (6) havoc ----------------------------------------------------------------------------
     if ctx.family_active("havoc") {
-        let n = if ctx.slow_tool { 40 } else { tier.pick(300_000u64, 12_000_000u64) };
+        let n = if ctx.slow_tool { 640 } else { tier.pick(300_000u64, 12_000_000u64) };
         let samples = sample_file_messages();
         for idx in 0..n {
             if !ctx.take("havoc", idx) {
@@ -469,7 +469,11 @@ pub fn havoc(r: &mut Rng, b: &mut Vec<u8>, seed: u64) {
 /// The repository's dnspython-produced sample files, wrapped into messages (header + RRs as answers).
 pub fn sample_file_messages() -> Vec<Vec<u8>> {
     let mut out = Vec::new();
-    if let Ok(rd) = std::fs::read_dir("/repo/simple-dns/samples/zonefile") {
+    if cfg!(miri) {
+        return out; // no file system under Miri's isolation
+    }
+    let repo = std::env::var("VERIF_REPO").unwrap_or_else(|_| "/repo".into());
+    if let Ok(rd) = std::fs::read_dir(format!("{}/simple-dns/samples/zonefile", repo)) {
         let mut paths: Vec<_> = rd.flatten().map(|e| e.path()).collect();
         paths.sort();
         for p in paths {
